@@ -142,12 +142,35 @@ class Gen:
             self.steps.append("C ifchange k0 %s" % t)
         self.count("tolerant_episode")
 
+    def oob_cycle_episode(self):
+        """T -> (m ->) d, d checksummed over a source; after a good build the source changes and d starts
+        to ask for T (or m): the cycle closes while d is rebuilt out of band (finding F21)"""
+        r = self.r
+        mid = r.random() < 0.5
+        base = {"ifc": [], "always": 0, "stamp": 0, "out": r.choice(["S", "3"]), "cat": 1, "exit": 0, "tol": 0}
+        self.emit_do("od.do", dict(base, deps=["s0"], stamp=1, payload=self.newtok()))
+        if mid:
+            self.emit_do("om.do", dict(base, deps=["od"], payload=self.newtok()))
+        self.emit_do("oT.do", dict(base, deps=["om" if mid else "od"], payload=self.newtok()))
+        self.steps.append("C ifchange k0 oT")
+        self.steps.append("W s0 %d" % self.newtok())
+        back = r.choice(["oT", "om"] if mid else ["oT"])
+        self.emit_do("od.do", dict(base, deps=["s0", back], stamp=1, payload=self.scripts["od.do"]["payload"]))
+        self.steps.append("C ifchange k0 oT")
+        if r.random() < 0.5:
+            # the cycle is removed again: everything recovers
+            self.emit_do("od.do", dict(base, deps=["s0"], stamp=1, payload=self.scripts["od.do"]["payload"]))
+            self.steps.append("C ifchange k0 oT")
+        self.count("oob_cycle_episode")
+
     def history(self, nsteps):
         r = self.r
         self.project()
         self.build_step()
         if self.profile == "failures" and r.random() < 0.5:
             self.tolerant_episode()
+        if self.profile == "cycles" and r.random() < 0.5:
+            self.oob_cycle_episode()
         for _ in range(nsteps):
             x = r.random()
             if x < 0.38:
